@@ -172,6 +172,7 @@ type c05dRound struct {
 	overlap46, overlapSame atomic.Int64
 
 	writersDone atomic.Bool
+	panics      atomic.Int32
 }
 
 func c05dScratch() string {
@@ -216,7 +217,12 @@ func TestVerifC05Dhcpd(t *testing.T) {
 	ops := verifkit.Pick(150, 200)
 	for i := 0; i < rounds; i++ {
 		r := &c05dRound{rep: rep, n: i, dir: filepath.Join(base, fmt.Sprintf("r%d", i))}
-		r.run(ops)
+		finished := r.run(ops)
+		if !finished {
+			rep.Event("rounds_not_finished")
+
+			break
+		}
 		_ = os.RemoveAll(r.dir)
 		overl := r.overlap46.Load() > 0
 		rep.Eval(overl, fmt.Sprintf("%d/%d", rep.Seed, i))
@@ -230,6 +236,9 @@ func TestVerifC05Dhcpd(t *testing.T) {
 		rep.EventN("stores_requested_by_v6", int(r.stores6.Load()))
 		rep.EventN("store_overlaps_v4_v6", int(r.overlap46.Load()))
 		rep.EventN("store_overlaps_same_family", int(r.overlapSame.Load()))
+	}
+	if rep.EventCount("rounds_not_finished") > 0 {
+		return
 	}
 	for _, ev := range []string{"snapshots_validated", "store_overlaps_v4_v6", "stores_requested_by_v4",
 		"stores_requested_by_v6", "v4:ack", "v6:reply_with_address", "quiescence_checks"} {
@@ -259,6 +268,7 @@ func (r *c05dRound) guard(name string, wg *sync.WaitGroup, f func(rng *rand.Rand
 		defer func() {
 			if p := recover(); p != nil {
 				st := debug.Stack()
+				r.panics.Add(1)
 				r.viol("panic:"+c05dPanicFunc(st), fmt.Sprintf("panic in goroutine %s: %v", name, p),
 					map[string]any{"goroutine": name, "stack": string(st)})
 			}
@@ -289,7 +299,10 @@ func (r *c05dRound) create() (s *server, err error) {
 	})
 }
 
-func (r *c05dRound) run(ops int) {
+// c05dWatchdog bounds one round.
+const c05dWatchdog = 120 * time.Second
+
+func (r *c05dRound) run(ops int) (finished bool) {
 	r.self = netip.MustParseAddr("192.168.50.2")
 	for i := 0; i < 12; i++ {
 		r.pool = append(r.pool, netip.AddrFrom4([4]byte{192, 168, 50, byte(20 + i)}))
@@ -298,14 +311,14 @@ func (r *c05dRound) run(ops int) {
 		if err := os.MkdirAll(filepath.Join(r.dir, d), 0o755); err != nil {
 			r.rep.Inconcl("mkdir: " + err.Error())
 
-			return
+			return false
 		}
 	}
 	var err error
 	if r.srv, err = r.create(); err != nil {
 		r.rep.Inconcl("Create failed on a valid configuration: " + err.Error())
 
-		return
+		return false
 	}
 	var ok4, ok6 bool
 	r.v4, ok4 = r.srv.srv4.(*v4Server)
@@ -313,7 +326,7 @@ func (r *c05dRound) run(ops int) {
 	if !ok4 || !ok6 || !r.v6.conf.Enabled {
 		r.rep.Inconcl(fmt.Sprintf("unexpected servers %T %T", r.srv.srv4, r.srv.srv6))
 
-		return
+		return false
 	}
 	// What Start does once the interface is known.
 	r.v4.configureDNSIPAddrs([]net.IP{r.self.AsSlice()})
@@ -351,11 +364,46 @@ func (r *c05dRound) run(ops int) {
 	r.guard("reader-a", &others, func(rng *rand.Rand) { r.reader(rng, 2*ops) })
 	r.guard("reader-b", &others, func(rng *rand.Rand) { r.reader(rng, 2*ops) })
 	r.guard("observer", &others, func(_ *rand.Rand) { r.observer() })
-	writers.Wait()
-	r.writersDone.Store(true)
-	others.Wait()
+	// Watchdog: a round takes well under a second.  Goroutines that never
+	// finish (for example behind a lock that a panicking call left locked) end
+	// the run as inconclusive; they cannot be stopped, so no further round is
+	// started.
+	done := make(chan struct{})
+	go func() {
+		writers.Wait()
+		r.writersDone.Store(true)
+		others.Wait()
+		close(done)
+	}()
+	start, stalled := time.Now(), false
+	for waiting := true; waiting; {
+		select {
+		case <-done:
+			waiting = false
+		case <-time.After(time.Second):
+			// After a panic the others may be stuck behind a lock it left
+			// locked; don't wait for long then.
+			el := time.Since(start)
+			if el > c05dWatchdog || (r.panics.Load() > 0 && el > 10*time.Second) {
+				waiting, stalled = false, true
+			}
+		}
+	}
+	if stalled {
+		r.writersDone.Store(true)
+		buf := make([]byte, 1<<20)
+		buf = buf[:runtime.Stack(buf, true)]
+		dump := filepath.Join(os.Getenv("VERIF_REPORT_DIR"), r.rep.Property+".dhcpd.stall.txt")
+		_ = os.WriteFile(dump, buf, 0o644)
+		r.rep.Inconcl(fmt.Sprintf("round %d: the goroutines did not finish within %s, %d panic(s) recovered before (goroutine dump: %s)",
+			r.n, time.Since(start).Round(time.Second), r.panics.Load(), dump))
+
+		return false
+	}
 
 	r.quiescence()
+
+	return true
 }
 
 // ---------------------------------------------------------------------------
